@@ -379,4 +379,50 @@ theorem kmerPositions_of_inv (cs : List (Nat × Nat)) (k : Nat) (hk2 : 2 * k ≤
     rw [this]
   · rw [if_neg (by omega), extract_bucket cs (pow4 k) ix.finger ix.pos inv w]
 
+/-! ### `Check` -/
+
+theorem checkHit_of_inv (cs : List (Nat × Nat)) (k : Nat) (ix : Index)
+    (inv : PlaceInv cs cs (pow4 k) ix.finger ix.pos) (c : Nat × Nat) (hc : c ∈ cs) (hw : c.2 < 4 ^ k) :
+    checkHit ix c = true := by
+  unfold checkHit
+  simp only []
+  have hj : rd ix.finger c.2 = below cs c.2 + cnt cs c.2 := inv.fing c.2 (by rw [pow4_eq]; omega)
+  have hi : (if c.2 = 0 then 0 else rd ix.finger (c.2 - 1)) = below cs c.2 := by
+    by_cases h0 : c.2 = 0
+    · rw [if_pos h0, h0, below_zero]
+    · rw [if_neg h0, inv.fing (c.2 - 1) (by rw [pow4_eq]; omega), ← below_succ]
+      congr 1; omega
+  rw [hi, hj, Nat.add_sub_cancel_left, List.any_eq_true]
+  have hmem : c.1 ∈ occ cs c.2 := by
+    unfold occ
+    rw [List.mem_map]
+    exact ⟨c, by rw [List.mem_filter]; exact ⟨hc, by simp⟩, rfl⟩
+  obtain ⟨j, hjlt, hjeq⟩ := List.mem_iff_getElem.mp hmem
+  rw [occ_length] at hjlt
+  refine ⟨j, List.mem_range.mpr hjlt, ?_⟩
+  have hb := inv.bucket c.2 j hjlt
+  rw [List.getElem?_eq_getElem (by rw [occ_length]; exact hjlt), hjeq] at hb
+  simp only [Option.some.injEq] at hb
+  simp [← hb]
+
+theorem check_of_inv {lk : Lookup} (hlk : FourLetter lk) (k : Nat) (hk1 : 1 ≤ k) (hk2 : 2 * k ≤ wordBits)
+    (s : List UInt8) (hs : k ≤ s.length) (ix : Index) (hk : ix.k = k) (hseq : ix.seq = s)
+    (inv : PlaceInv (allWindows lk k s) (allWindows lk k s) (pow4 k) ix.finger ix.pos) :
+    check lk ix = (true, (allWindows lk k s).length) := by
+  unfold check
+  simp only [hk, hseq]
+  rw [forEachKmer_calls hlk k hk1 hk2, validWindows_full hlk, forEachKmer_err lk k s 0 s.length (by omega) (Nat.le_refl _)]
+  have hall : ∀ c ∈ allWindows lk k s, checkHit ix c = true := fun c hc =>
+    checkHit_of_inv _ k ix inv c hc (mem_wordsFrom_bounds hlk k s 0 c hc).1
+  have h1 : ((allWindows lk k s).map (checkHit ix)).all id = true := by
+    rw [List.all_eq_true]
+    intro x hx
+    obtain ⟨c, hc, rfl⟩ := List.mem_map.mp hx
+    exact hall c hc
+  have h2 : ((allWindows lk k s).map (checkHit ix)).countP id = (allWindows lk k s).length := by
+    rw [List.countP_map, List.countP_eq_length.mpr]
+    intro c hc
+    exact hall c hc
+  rw [h1, h2]; rfl
+
 end Biogo.Proofs.KmerIndex
